@@ -19,12 +19,15 @@ def _confirm(prop):
         env = dict(os.environ)
         env.pop("NSLMC_SNAPSHOT", None)
         env["PYTHONHASHSEED"] = "0"
-        r = subprocess.run(
-            [sys.executable, "-m", "nslmc.cli", prop, "--replay", path, "--quiet"],
-            cwd=VERIF, env=env, stdout=subprocess.PIPE, stderr=subprocess.STDOUT, timeout=600,
-        )
-        if r.returncode == 1:
-            return True
+        try:
+            r = subprocess.run(
+                [sys.executable, "-m", "nslmc.cli", prop, "--replay", path, "--quiet"],
+                cwd=VERIF, env=env, stdout=subprocess.PIPE, stderr=subprocess.STDOUT, timeout=600,
+            )
+            if r.returncode == 1:
+                return True
+        except subprocess.TimeoutExpired:
+            pass        # a replay that does not come back is no confirmation; the job re-run below decides
         # the case alone does not fail in a fresh process: it may need the history of its job (process-global state in the
         # code under test).  Jobs are hermetic, so re-executing the whole job in a fresh process replays that history exactly.
         rec = json.load(open(path))
